@@ -11,12 +11,16 @@
                          if !ok { b = NewBreaker(); breakers[name] = b }
                          lock.Unlock(); return b
      Do*(name, ...):     b := GetBreaker(name); b.Do*(...)          -- one record in b's window
+     Do*Ctx(ctx, name, ...): b := GetBreaker(name); b.Do*Ctx(ctx, ...)  -- the caller's context is handed
+                         on: b short-circuits on a done context and then records nothing
      NoBreakerFor(name): lock.Lock(); breakers[name] = NopBreaker(); lock.Unlock()
 
    A breaker is represented by its identity (1, 2, ... in order of creation) and by the
    number of calls on record in it (`rec`); what a single breaker does with its calls is
    Breaker.tla / BreakerImpl.tla.  Each process performs up to MaxCalls by-name calls on
-   names of its choice; processes in NopProcs may also call NoBreakerFor.  Every step of
+   names of its choice, each on a context of its choice out of Ctxs ("live" stands for a
+   live context and for the entry points without one, "done" for a context that is already
+   done); processes in NopProcs may also call NoBreakerFor.  Every step of
    the pseudo-code above is one action, so TLC explores every interleaving, in particular
    several goroutines between the failed read-locked lookup and the store.
 
@@ -25,8 +29,11 @@
                 BreakerNames.tla (one breaker per name, distinct breakers for distinct
                 names) -- the same operator the trace specification applies to the
                 identities the real GetBreaker returned;
-     Accounted  all by-name calls made so far through name n are on record in the breaker
-                registered under n (the accounting clause for by-name calls);
+     Accounted  the by-name calls made so far through name n on a live context -- all of them,
+                and nothing else: a call on a done context touches nothing (Breaker.tla,
+                DecideSkip) -- are on record in the breaker registered under n (the accounting
+                clause for by-name calls: "a by-name call IS that call on the breaker of its
+                name", with the context the caller supplied);
      NopSticks  a by-name call that starts after NoBreakerFor(n) returned uses the
                 never-rejecting breaker (registry semantics; design level only).
 
@@ -34,12 +41,14 @@
    section stores a new breaker without looking again) and "outside" (the breaker is
    built before taking the write lock and stored unconditionally): goroutines that miss
    together each get their own breaker, the last store wins, the calls recorded in the
-   others are orphaned.                                                              *)
+   others are orphaned; "dropctx" (a by-name Ctx function that delegates to the breaker's
+   method without the context: done-context calls are admitted / rejected and recorded).  *)
 EXTENDS Integers, FiniteSets, TLC, BreakerNames
 
-CONSTANTS Procs, Names, MaxCalls, NopProcs, Variant
+CONSTANTS Procs, Names, MaxCalls, NopProcs, Variant, Ctxs
 
-ASSUME Variant \in {"code", "norecheck", "outside"} /\ NopProcs \subseteq Procs
+ASSUME Variant \in {"code", "norecheck", "outside", "dropctx"} /\ NopProcs \subseteq Procs
+ASSUME Ctxs # {} /\ Ctxs \subseteq {"live", "done"}
 
 MaxInst == Cardinality(Procs) * MaxCalls
 
@@ -50,6 +59,7 @@ VARIABLES
   nops,     \* identities that are NopBreakers
   pc, nm, b, left, late,  \* per process: control point, name in hand, local b, operations left,
             \*              "NoBreakerFor(nm) had returned when this call started"
+  cx,       \* per process: the context the caller supplied for the call in hand
   rec,      \* identity |-> calls on record in that breaker
   byName,   \* name |-> by-name calls made through it (their record step done)
   touched,  \* names NoBreakerFor was ever called for (outside the law of BreakerNames)
@@ -57,12 +67,13 @@ VARIABLES
   reg,      \* Layer P: the registry as observed through the returns of GetBreaker
   lawOK, nopOK
 
-vars == <<map, rd, wr, made, nops, pc, nm, b, left, late, rec, byName, touched, nopDone, reg, lawOK, nopOK>>
+vars == <<map, rd, wr, made, nops, pc, nm, b, left, late, cx, rec, byName, touched, nopDone, reg, lawOK, nopOK>>
 
 Init ==
   /\ map = [n \in Names |-> 0] /\ rd = {} /\ wr = 0 /\ made = 0 /\ nops = {}
   /\ pc = [p \in Procs |-> "idle"] /\ nm = [p \in Procs |-> CHOOSE n \in Names : TRUE]
   /\ b = [p \in Procs |-> 0] /\ left = [p \in Procs |-> MaxCalls] /\ late = [p \in Procs |-> FALSE]
+  /\ cx = [p \in Procs |-> "live"]
   /\ rec = [i \in 1..MaxInst |-> 0] /\ byName = [n \in Names |-> 0]
   /\ touched = {} /\ nopDone = {} /\ reg = EmptyReg /\ lawOK = TRUE /\ nopOK = TRUE
 
@@ -70,8 +81,9 @@ Goto(p, l) == pc' = [pc EXCEPT ![p] = l]
 Keep(vs) == UNCHANGED vs
 
 \* ---------------------------------------------------------------- Do*(name, ...) = GetBreaker + one record
-Begin(p, n) ==
-  /\ pc[p] = "idle" /\ left[p] > 0
+Begin(p, n, c) ==
+  /\ pc[p] = "idle" /\ left[p] > 0 /\ c \in Ctxs
+  /\ cx' = [cx EXCEPT ![p] = c]
   /\ nm' = [nm EXCEPT ![p] = n] /\ left' = [left EXCEPT ![p] = @ - 1]
   /\ late' = [late EXCEPT ![p] = n \in nopDone] /\ b' = [b EXCEPT ![p] = 0]
   /\ Goto(p, "rlock")
@@ -80,29 +92,29 @@ Begin(p, n) ==
 RLock(p) ==
   /\ pc[p] = "rlock" /\ wr = 0
   /\ rd' = rd \cup {p} /\ Goto(p, "look")
-  /\ Keep(<<map, wr, made, nops, nm, b, left, late, rec, byName, touched, nopDone, reg, lawOK, nopOK>>)
+  /\ Keep(<<map, wr, made, nops, nm, b, left, late, cx, rec, byName, touched, nopDone, reg, lawOK, nopOK>>)
 
 Look(p) ==
   /\ pc[p] = "look"
   /\ b' = [b EXCEPT ![p] = map[nm[p]]] /\ Goto(p, "runlock")
-  /\ Keep(<<map, rd, wr, made, nops, nm, left, late, rec, byName, touched, nopDone, reg, lawOK, nopOK>>)
+  /\ Keep(<<map, rd, wr, made, nops, nm, left, late, cx, rec, byName, touched, nopDone, reg, lawOK, nopOK>>)
 
 RUnlock(p) ==
   /\ pc[p] = "runlock"
   /\ rd' = rd \ {p}
   /\ Goto(p, IF b[p] # 0 THEN "ret" ELSE IF Variant = "outside" THEN "create" ELSE "lock")
-  /\ Keep(<<map, wr, made, nops, nm, b, left, late, rec, byName, touched, nopDone, reg, lawOK, nopOK>>)
+  /\ Keep(<<map, wr, made, nops, nm, b, left, late, cx, rec, byName, touched, nopDone, reg, lawOK, nopOK>>)
 
 \* variant "outside" only: NewBreaker() before the write lock
 Create(p) ==
   /\ pc[p] = "create"
   /\ made' = made + 1 /\ b' = [b EXCEPT ![p] = made + 1] /\ Goto(p, "lock")
-  /\ Keep(<<map, rd, wr, nops, nm, left, late, rec, byName, touched, nopDone, reg, lawOK, nopOK>>)
+  /\ Keep(<<map, rd, wr, nops, nm, left, late, cx, rec, byName, touched, nopDone, reg, lawOK, nopOK>>)
 
 Lock(p) ==
   /\ pc[p] = "lock" /\ wr = 0 /\ rd = {}
   /\ wr' = p /\ Goto(p, "crit")
-  /\ Keep(<<map, rd, made, nops, nm, b, left, late, rec, byName, touched, nopDone, reg, lawOK, nopOK>>)
+  /\ Keep(<<map, rd, made, nops, nm, b, left, late, cx, rec, byName, touched, nopDone, reg, lawOK, nopOK>>)
 
 Crit(p) ==
   /\ pc[p] = "crit"
@@ -113,12 +125,12 @@ Crit(p) ==
        [] OTHER ->
             made' = made + 1 /\ b' = [b EXCEPT ![p] = made + 1] /\ map' = [map EXCEPT ![nm[p]] = made + 1]
   /\ Goto(p, "unlock")
-  /\ Keep(<<rd, wr, nops, nm, left, late, rec, byName, touched, nopDone, reg, lawOK, nopOK>>)
+  /\ Keep(<<rd, wr, nops, nm, left, late, cx, rec, byName, touched, nopDone, reg, lawOK, nopOK>>)
 
 Unlock(p) ==
   /\ pc[p] = "unlock"
   /\ wr' = 0 /\ Goto(p, "ret")
-  /\ Keep(<<map, rd, made, nops, nm, b, left, late, rec, byName, touched, nopDone, reg, lawOK, nopOK>>)
+  /\ Keep(<<map, rd, made, nops, nm, b, left, late, cx, rec, byName, touched, nopDone, reg, lawOK, nopOK>>)
 
 \* GetBreaker returns b[p]: the law of BreakerNames, applied in the order of the returns
 Ret(p) ==
@@ -126,14 +138,18 @@ Ret(p) ==
   /\ IF nm[p] \in touched THEN Keep(<<reg, lawOK>>)
      ELSE lawOK' = (lawOK /\ GetOK(reg, nm[p], b[p])) /\ reg' = GetEff(reg, nm[p], b[p])
   /\ Goto(p, "use")
-  /\ Keep(<<map, rd, wr, made, nops, nm, b, left, late, rec, byName, touched, nopDone, nopOK>>)
+  /\ Keep(<<map, rd, wr, made, nops, nm, b, left, late, cx, rec, byName, touched, nopDone, nopOK>>)
 
-\* the call on the breaker obtained: one record in *that* breaker's window
+\* the call on the breaker obtained, with the context that reached it: a done context is
+\* short-circuited (nothing recorded), otherwise one record in *that* breaker's window.
+\* byName counts what the law says the call leaves behind: one record iff the CALLER's context is live.
 Use(p) ==
   /\ pc[p] = "use"
-  /\ rec' = [rec EXCEPT ![b[p]] = @ + 1]
-  /\ byName' = [byName EXCEPT ![nm[p]] = @ + 1]
+  /\ LET seen == IF Variant = "dropctx" THEN "live" ELSE cx[p] IN
+       rec' = [rec EXCEPT ![b[p]] = @ + (IF seen = "done" THEN 0 ELSE 1)]
+  /\ byName' = [byName EXCEPT ![nm[p]] = @ + (IF cx[p] = "done" THEN 0 ELSE 1)]
   /\ nopOK' = (nopOK /\ (late[p] => b[p] \in nops))
+  /\ cx' = [cx EXCEPT ![p] = "live"]
   /\ Goto(p, "idle")
   /\ Keep(<<map, rd, wr, made, nops, nm, b, left, late, touched, nopDone, reg, lawOK>>)
 
@@ -142,27 +158,27 @@ NBegin(p, n) ==
   /\ p \in NopProcs /\ pc[p] = "idle" /\ left[p] > 0
   /\ nm' = [nm EXCEPT ![p] = n] /\ left' = [left EXCEPT ![p] = @ - 1]
   /\ touched' = touched \cup {n} /\ Goto(p, "nlock")
-  /\ Keep(<<map, rd, wr, made, nops, b, late, rec, byName, nopDone, reg, lawOK, nopOK>>)
+  /\ Keep(<<map, rd, wr, made, nops, b, late, cx, rec, byName, nopDone, reg, lawOK, nopOK>>)
 
 NLock(p) ==
   /\ pc[p] = "nlock" /\ wr = 0 /\ rd = {}
   /\ wr' = p /\ Goto(p, "ncrit")
-  /\ Keep(<<map, rd, made, nops, nm, b, left, late, rec, byName, touched, nopDone, reg, lawOK, nopOK>>)
+  /\ Keep(<<map, rd, made, nops, nm, b, left, late, cx, rec, byName, touched, nopDone, reg, lawOK, nopOK>>)
 
 NCrit(p) ==
   /\ pc[p] = "ncrit"
   /\ made' = made + 1 /\ nops' = nops \cup {made + 1} /\ map' = [map EXCEPT ![nm[p]] = made + 1]
   /\ Goto(p, "nunlock")
-  /\ Keep(<<rd, wr, nm, b, left, late, rec, byName, touched, nopDone, reg, lawOK, nopOK>>)
+  /\ Keep(<<rd, wr, nm, b, left, late, cx, rec, byName, touched, nopDone, reg, lawOK, nopOK>>)
 
 NUnlock(p) ==
   /\ pc[p] = "nunlock"
   /\ wr' = 0 /\ nopDone' = nopDone \cup {nm[p]} /\ Goto(p, "idle")
-  /\ Keep(<<map, rd, made, nops, nm, b, left, late, rec, byName, touched, reg, lawOK, nopOK>>)
+  /\ Keep(<<map, rd, made, nops, nm, b, left, late, cx, rec, byName, touched, reg, lawOK, nopOK>>)
 
 Next ==
   \E p \in Procs :
-    \/ \E n \in Names : Begin(p, n) \/ NBegin(p, n)
+    \/ \E n \in Names : NBegin(p, n) \/ \E c \in Ctxs : Begin(p, n, c)
     \/ RLock(p) \/ Look(p) \/ RUnlock(p) \/ Create(p) \/ Lock(p) \/ Crit(p) \/ Unlock(p) \/ Ret(p) \/ Use(p)
     \/ NLock(p) \/ NCrit(p) \/ NUnlock(p)
 
